@@ -119,7 +119,16 @@ pub struct Upload(pub usize);
 impl Upload {
     /// Get the upload value.
     pub fn value(&self, ctx: &Context<'_>) -> std::io::Result<UploadValue> {
-        ctx.query_env.uploads[self.0].try_clone()
+        ctx.query_env
+            .uploads
+            .get(self.0)
+            .ok_or_else(|| {
+                std::io::Error::new(
+                    std::io::ErrorKind::NotFound,
+                    "the request contains no such upload",
+                )
+            })?
+            .try_clone()
     }
 }
 
@@ -160,7 +169,9 @@ impl InputType for Upload {
         if let Value::String(s) = &value
             && let Some(filename) = s.strip_prefix(PREFIX)
         {
-            return Ok(Upload(filename.parse::<usize>().unwrap()));
+            if let Ok(index) = filename.parse::<usize>() {
+                return Ok(Upload(index));
+            }
         }
         Err(InputValueError::expected_type(value))
     }
